@@ -36,8 +36,13 @@ def port_listening(port):
 LONG = {}
 
 
-def burst(stream, t, c, k, long_line=0):
+def burst(stream, t, c, k, long_line=0, style=None):
     b = ("%s of %s:%s burst %d line 1\n%s of %s:%s burst %d line 2\n" % (stream, c, t, k, stream, c, t, k)).encode()
+    if style == "crlf":
+        b = b.replace(b"\n", b"\r\n")
+    elif style == "odd-text":
+        # still newline-terminated text: empty lines, leading/trailing blanks, tabs, a lone CR, non-ASCII
+        b = b + b"\n\n  indented \t tabbed  \n" + "caf\u00e9 \u2713 \U0001F680\n".encode() + b"progress 10%\rprogress 100%\n" + b"[monorail | looks like a header | x | y]\n"
     if long_line:
         # short line, then a line of `long_line` bytes, then a short line - all in one flush block
         mid = (("%s-%s-%s-%d-" % (stream[:3], c, t, k)).encode() * (long_line // 10 + 1))[:long_line - 1] + b"\n"
@@ -328,7 +333,8 @@ def c20_run(desc):
                     for ch in grp:
                         t = os.path.relpath(ch.cwd, r.dir)
                         ll = desc.get("long_line", 0)
-                        c.send(ch, ["out " + burst("stdout", t, cmd, k, ll).hex(), "err " + burst("stderr", t, cmd, k, ll).hex()])
+                        st = desc.get("style")
+                        c.send(ch, ["out " + burst("stdout", t, cmd, k, ll, st).hex(), "err " + burst("stderr", t, cmd, k, ll, st).hex()])
                         c.wait_acks(ch, 10)
                     c.wait(lambda: False, GAP)
                 for ch in grp:
@@ -414,6 +420,10 @@ def c20_scenarios(tier):
     # line lengths around and beyond typical buffer sizes inside one block (short, long, short)
     for ll in ([8192, 70000] if tier == "quick" else [1000, 4095, 4096, 8191, 8192, 8193, 16384, 65536, 70000, 300000]):
         out.append({"streams": ["--stdout", "--stderr"], "targets": [], "commands": [], "short": True, "long_line": ll})
+    # other kinds of newline-terminated text: CRLF line endings; blank lines, tabs, lone CR, non-ASCII,
+    # and a line that merely looks like a (colourless) header
+    for st in ("crlf", "odd-text"):
+        out.append({"streams": ["--stdout", "--stderr"], "targets": [], "commands": [], "short": True, "style": st})
     # held schedules: the first task to flush is held inside the critical section
     n = 6 if tier == "quick" else 24
     for i in range(n):
